@@ -182,6 +182,13 @@ def rule_C01(env):
         if len(samples) < 5 and lf.pre:
             samples.append(PV.sample(lf, []))
     res.floor("R01.b", 300, "emission leaves")
+    # O5: what is appended is one well-formed opcode (otherwise the byte stream and the simulation part ways:
+    # e.g. a raw newline inside a newline-terminated argument turns the rest of the argument into opcodes)
+    import rules_c04
+    tmp = Result("C01", "model_checking")
+    rules_c04.emission_findings(env, tmp, tr, "safe")
+    for f in tmp.findings:
+        res.add("R01.g", f.key.split("/", 2)[2], "emitted bytes are not the one well-formed opcode the simulation assumes: " + f.msg, f.where, f.detail)
     # STOP and FRAME are never candidates
     for op in ("Stop",):
         lvs = tr.get(op)
